@@ -227,6 +227,8 @@ class PathResolver:
                 r = frame.res.promoted(c[1])
                 if r is not None:
                     return r
+            if c[0] == 'constdef' and c[3] is None:
+                return self.g.generic_const(frame, c)
             return c
         return ('const', None, '?')
 
